@@ -45,11 +45,14 @@ Proof.
   apply intervals_ok_app in H. destruct H as [_ H]. cbn in H. destruct H as [H _]. now apply H.
 Qed.
 
-(* The guarantee does not span a housekeeping-forget: after a signature has
-   succeeded and no task needs it any more it is forgotten together with its
-   t_next_call entry, and a task that needs it later re-commences it at once.
-   (interval 10: submitted at 0, succeeded, forgotten, needed again, submitted at 2.)
-   Recorded as the boundary of the guarantee, not raised as a defect. *)
+(* The full statement of the property text ("consecutive calls are at least the
+   configured interval apart") is the unconditional one below.  It is FALSE of the
+   code: after a signature has succeeded and no task needs it any more, housekeep
+   forgets it together with its t_next_call entry, and a task that needs it later
+   re-submits it at once.  Witness: interval 10; submitted at 0, succeeded,
+   forgotten by housekeep([task 0]), needed by task 1, submitted again at 2.
+   FINDING (open, known_findings.d/C33.json; the witness is in the stream's corpus);
+   [c33_interval] above is the restricted statement that does hold. *)
 Definition c33_interval_unconditional : Prop :=
   forall ts ops st evs s t1 iv1 t2 iv2 pre mid post,
     xrun (xinit ts) ops = (st, evs) ->
